@@ -421,23 +421,29 @@ impl<'a, F: IVP> SolOut for DefaultSolOut<'a, F> {
             if let Some(h0) = self.first_step {
                 // First-step enforcement: skip intermediate outputs until we reach/pass
                 // the target, then interpolate to the exact point.
-                if !self.first_output_done && (xold - *x).abs() > self.tol {
+                // (every genuine step takes part, however short: only the initial callback has xold == x)
+                if !self.first_output_done && xold != *x {
                     let direction = (*x - xold).signum();
                     // For backward integration (direction < 0), target is x0 - |h0|
                     let target = self.x0 + direction * h0.abs();
                     
                     if direction * (*x - target) >= -self.tol {
                         // We've reached or passed the target point
-                        if let Some(interp) = interpolant {
-                            let mut yi = vec![0.0; y.len()];
-                            interp.interpolate(target, &mut yi);
-                            self.t.push(target);
-                            self.y.push(yi);
+                        if (*x - target).abs() <= self.tol {
+                            // The step ends at the target (to the comparison tolerance): its end point is the first
+                            // output. Reporting `target` itself could pass xend, or a later sample, by a rounding error.
+                            self.t.push(*x);
+                            self.y.push(y.to_vec());
                             self.first_output_done = true;
-                        }
-                        
-                        // Also output current endpoint if distinct from target
-                        if (*x - target).abs() > self.tol {
+                        } else {
+                            if let Some(interp) = interpolant {
+                                let mut yi = vec![0.0; y.len()];
+                                interp.interpolate(target, &mut yi);
+                                self.t.push(target);
+                                self.y.push(yi);
+                                self.first_output_done = true;
+                            }
+                            // Also output the current endpoint, which is distinct from the target
                             self.t.push(*x);
                             self.y.push(y.to_vec());
                         }
